@@ -133,17 +133,65 @@ def int_dispatch_var(fn_node):
     return c.most_common(1)[0][0] if c else None
 
 
+def _arm_ids(test, var):
+    """Integer ids an `if` test selects for the dispatch variable:
+    `var == k` or `var in (k1, k2, ...)`."""
+    if isinstance(test, ast.Compare) and dotted(test.left) == var and \
+            len(test.ops) == 1:
+        cmp_ = test.comparators[0]
+        if isinstance(test.ops[0], ast.Eq) and isinstance(const(cmp_), int):
+            return [const(cmp_)]
+        if isinstance(test.ops[0], ast.In) and \
+                isinstance(cmp_, (ast.Tuple, ast.List, ast.Set)) and \
+                cmp_.elts and all(isinstance(const(e), int)
+                                  for e in cmp_.elts):
+            return [const(e) for e in cmp_.elts]
+    return []
+
+
+def _cell_types(expr, k, var, body, depth=0):
+    """CellType names `expr` can denote in the arm for id k (names are
+    followed to their assignments in the arm; a conditional expression on
+    the dispatch variable is decided for k)."""
+    if isinstance(expr, ast.Attribute):
+        d = dotted(expr)
+        if d and d.startswith('CellType.'):
+            return [d.split('.')[1]]
+        return []
+    if isinstance(expr, ast.IfExp):
+        ids = _arm_ids(expr.test, var)
+        if ids:
+            return _cell_types(expr.body if k in ids else expr.orelse, k,
+                               var, body, depth)
+        return _cell_types(expr.body, k, var, body, depth) + \
+            _cell_types(expr.orelse, k, var, body, depth)
+    if isinstance(expr, ast.Name) and depth < 3:
+        out = []
+        for s in body:
+            for a in ast.walk(s):
+                if isinstance(a, ast.Assign) and any(
+                        isinstance(t, ast.Name) and t.id == expr.id
+                        for t in a.targets):
+                    out += _cell_types(a.value, k, var, body, depth + 1)
+        return out
+    if isinstance(expr, (ast.Tuple, ast.List)):
+        out = []
+        for e in expr.elts:
+            out += _cell_types(e, k, var, body, depth)
+        return out
+    return []
+
+
 def type_id_arms(fn_node, var=None):
-    """{int id: [CellType names pushed in that arm]} for `if var == k:`
-    ladders (var defaults to the integer dispatch variable)."""
+    """{int id: [CellType names pushed in that arm]} for `if var == k:` /
+    `if var in (k1, k2):` ladders (var defaults to the integer dispatch
+    variable)."""
     out = {}
     var = int_dispatch_var(fn_node) if var is None else var
     for n in ast.walk(fn_node):
-        if isinstance(n, ast.If) and isinstance(n.test, ast.Compare) and \
-                dotted(n.test.left) == var and len(n.test.ops) == 1 and \
-                isinstance(n.test.ops[0], ast.Eq) and \
-                isinstance(const(n.test.comparators[0]), int):
-            k = const(n.test.comparators[0])
+        if not isinstance(n, ast.If):
+            continue
+        for k in _arm_ids(n.test, var):
             pushed = []
             for s in n.body:
                 for c in ast.walk(s):
@@ -152,10 +200,28 @@ def type_id_arms(fn_node, var=None):
                             (dotted(c.func) or '').endswith('.append')):
                         # cpu.push(CellType.X, v) or a deferred
                         # results.append((CellType.X, v))
-                        for a in ast.walk(c):
-                            d = dotted(a) if isinstance(
-                                a, ast.Attribute) else None
-                            if d and d.startswith('CellType.'):
-                                pushed.append(d.split('.')[1])
+                        for a in c.args:
+                            pushed += _cell_types(a, k, var, n.body)
             out[k] = pushed
+    return out
+
+
+def type_id_range_checks(fn_node, var=None):
+    """{int id: [Type names whose can_hold() range test the arm applies]}."""
+    out = {}
+    var = int_dispatch_var(fn_node) if var is None else var
+    for n in ast.walk(fn_node):
+        if not isinstance(n, ast.If):
+            continue
+        for k in _arm_ids(n.test, var):
+            used = []
+            for s in n.body:
+                for c in ast.walk(s):
+                    if isinstance(c, ast.Call) and \
+                            isinstance(c.func, ast.Attribute) and \
+                            c.func.attr == 'can_hold':
+                        d = dotted(c.func.value) or ''
+                        if '.' in d and d.split('.')[-2] == 'Type':
+                            used.append(d.split('.')[-1])
+            out[k] = used
     return out
